@@ -714,7 +714,9 @@ func ruleC05TunnelPeerID(w *World, r *Report) {
 	f := w.Fn(P, "pfcpiface.(*UP4).addOrUpdateGTPTunnelPeer")
 	fn := w.FuncName(f)
 	alloc := w.Fn(P, "pfcpiface.(*UP4).unsafeAllocateGTPTunnelPeerID")
-	release := w.Fn(P, "pfcpiface.(*UP4).unsafeReleaseAllocatedGTPTunnelPeer")
+	// the release helper is a convenience, not part of what is required: a tree that returns the ID where
+	// the helper was called has no helper, and then only the direct returns to the queue count below
+	release := w.FnOpt("pfcpiface.(*UP4).unsafeReleaseAllocatedGTPTunnelPeer")
 	acs := callsTo(f, alloc)
 	if len(acs) != 1 {
 		r.bad("R05.8", fn, "one allocation site of a tunnel-peer ID", w.Pos(f.Pos()), fmt.Sprintf("%d allocation calls", len(acs)))
@@ -757,14 +759,14 @@ func ruleC05TunnelPeerID(w *World, r *Report) {
 		if g == nil {
 			return false
 		}
-		if g == release {
+		if release != nil && g == release {
 			return registeredBefore(i)
 		}
 		if g.Parent() == f {
 			if appendsPool(g) {
 				return true
 			}
-			if len(callsTo(g, release)) > 0 {
+			if release != nil && len(callsTo(g, release)) > 0 {
 				return registeredBefore(i)
 			}
 		}
@@ -792,7 +794,9 @@ func ruleC05TunnelPeerID(w *World, r *Report) {
 		if reach(f, start, func(i ssa.Instruction) bool { return i == ssa.Instruction(ret) }, nil, nil) == nil && start != ssa.Instruction(ret) {
 			continue
 		}
-		n++
+		// a failing exit counts once per failure it reports: one return statement that several fallible
+		// steps share (their errors merged into the returned value) stands for as many failing exits
+		n += len(failuresReported(res(ret, 0)))
 		// after the allocation the peer is known to be new: the "peer existed" arm of any later test on the
 		// same lookup is not taken
 		newPeer := func(a, b *ssa.BasicBlock) bool {
@@ -806,6 +810,34 @@ func ruleC05TunnelPeerID(w *World, r *Report) {
 		r.check(miss == nil, "R05.8", fn, fmt.Sprintf("failing exit #%d gives the new tunnel-peer ID back", k+1), w.Pos(ret.Pos()), "ID appended to the queue (or the registered peer released)", "after a failed write the error path calls unsafeReleaseAllocatedGTPTunnelPeer, which looks the peer up in tunnelPeerIDs — where a new peer is registered only after a successful write — and so releases nothing: the ID taken from the queue is lost, and after enough rejected requests no tunnel peer can be created any more")
 	}
 	r.floor("R05.8 failing exits after the allocation of a tunnel-peer ID", n, 2)
+}
+
+// failuresReported: the distinct values other than the nil constant a returned error can be, looking through
+// the φs that merge the errors of several steps (at least one: a value that is not a φ is itself).
+func failuresReported(v ssa.Value) []ssa.Value {
+	var out []ssa.Value
+	seen := map[ssa.Value]bool{}
+	var walk func(x ssa.Value)
+	walk = func(x ssa.Value) {
+		if x == nil || seen[x] {
+			return
+		}
+		seen[x] = true
+		if phi, ok := x.(*ssa.Phi); ok {
+			for _, e := range phi.Edges {
+				walk(e)
+			}
+			return
+		}
+		if !isNilConst(x) {
+			out = append(out, x)
+		}
+	}
+	walk(v)
+	if len(out) == 0 {
+		out = append(out, v)
+	}
+	return out
 }
 
 // ruleC05Residual: further places where something a session acquired can outlive it (R05.10–R05.12).
